@@ -98,7 +98,7 @@ func checkEvictions(label string, pre, post []mSnap, want int) {
 	vrt.Assert(label+".one-eviction-per-stored-message", gone == want)
 }
 
-// verif:harness props=C12,C02 tier=quick native=yes weight=35
+// verif:harness props=C12,C02 tier=quick native=yes weight=35 tonly=C12
 // verif:bounds N=2 pre-existing messages (thorough 3) in any state; max_depth in 0(unlimited)..N+1, reject|drop_oldest, delivered-retention on/off, memory-pressure item limit in {default,1,2}; new id from {existing ids, fresh id, empty (generated)}; precondition active<=max_depth (property's exclusion); pruning disabled here (see VerifC02Prune)
 func VerifC12Enqueue() {
 	n := 2
@@ -214,7 +214,7 @@ func VerifC12Enqueue() {
 	vrt.Observe("err", err)
 }
 
-// verif:harness props=C12,C15 tprops=C02 tier=quick native=yes weight=70
+// verif:harness props=C12,C15 tier=quick native=yes weight=70 tonly=C12
 // verif:bounds N=2 pre-existing messages (thorough 3); batch of 1..2 envelopes (thorough ..3) with ids from {existing, fresh a, fresh b, empty}, so duplicates inside the batch and against the queue occur; same limits space as VerifC12Enqueue
 func VerifC12EnqueueBatch() {
 	n, kmax := 2, 2
